@@ -10,7 +10,7 @@ for d in sorted(glob.glob('/verif/seeded/*/')):
     ex=re.search(r'exit=(\d)',det)
     cls=re.search(r'class=(\S+)',det)
     run=re.search(r'run=(\d+)',det)
-    rows.append((m['id'],m.get('round',1),m['change'],m['needs_to_manifest'],ex.group(1) if ex else '?',cls.group(1) if cls else '-',run.group(1) if run else '-'))
+    rows.append((m['id'],m.get('round',1),m['change'],m.get('needs_to_manifest','(see change)'),ex.group(1) if ex else '?',cls.group(1) if cls else '-',run.group(1) if run else '-'))
 out=["# Seeded changes and what catches them","",
 "Every change below compiles, passes the repository's 198 baseline tests and the 260 `--all-features` tests, and fails only its own demonstration (`confirm.txt` in each directory). `detected.txt` holds the output of the property's quick check with the change applied (`tools/seeded_eval.sh`): exit 1 = VIOLATION reported.","",
 "| id | round | change | needs | quick check | oracle class | first failing run |","|---|---|---|---|---|---|---|"]
